@@ -95,14 +95,24 @@ Unjudged(t, segs) == (TrailDir(segs) /\ LastIsLink(t, segs)) \/ Escapes(t, segs)
 R(e, t, v) == [e |-> e, t |-> t, v |-> v]
 NoVal == <<>>
 
-\* mkdir(2) never follows the final component, trailing separator or not ("link/" => EEXIST)
+\* mkdir(2) never follows the final component, trailing separator or not ("link/" => EEXIST);
+\* "x/." (also "x/./", "x/.//") walks INTO x: ENOTDIR if x is not a directory, ENOENT if x is absent,
+\* EEXIST otherwise
+RECURSIVE StripTrail(_)
+StripTrail(segs) == IF Len(segs) > 1 /\ segs[Len(segs)] = "" THEN StripTrail(SubSeq(segs, 1, Len(segs) - 1)) ELSE segs
 Mkdir(t, segs) ==
+    LET core == StripTrail(segs) IN
+    IF Len(core) > 1 /\ core[Len(core)] = "."
+    THEN LET w == Resolve(t, core, TRUE) IN
+         CASE w.r = "err"  -> R(w.e, t, NoVal)
+           [] w.r = "node" -> R("EEXIST", t, NoVal)
+           [] w.r = "new"  -> R("ENOENT", t, NoVal)
+    ELSE
     LET w == IF Comps(segs) = <<>> /\ ~IsAbs(segs) /\ segs \in {<<>>, <<"">>} THEN [r |-> "err", e |-> "ENOENT"]
              ELSE Walk(t, <<>>, Comps(segs), FALSE, Fuel) IN
     CASE w.r = "err"  -> R(w.e, t, NoVal)
       [] w.r = "node" -> R("EEXIST", t, NoVal)
-      [] w.r = "new"  -> IF segs[Len(segs)] = "." THEN R("ENOENT", t, NoVal)     \* mkdir("x/.")
-                         ELSE R("ok", Put(t, w.p, Dir), NoVal)
+      [] w.r = "new"  -> R("ok", Put(t, w.p, Dir), NoVal)
 
 \* open(O_WRONLY|O_CREAT ...) as far as the tree is concerned: the file node to write
 OpenForWrite(t, segs) ==
